@@ -95,6 +95,10 @@
 // Restart); (*Replica).Upgrader() returns it (e.g. to pre-submit a descriptor like an operator
 // would). TxSubmitUpgrade / UpgradeDescriptor build a governance upgrade proposal.
 //
+// Watchdogs: (*Replica).CurrentCall() names the ABCI call in progress ("DeliverTx[3]", "Commit",
+// ...) and may be read from another goroutine. UpgradeSpec.NewMaxTxSize makes the mock migration
+// set MaxTxSize (an in-block consensus parameter change) instead of incrementing it.
+//
 // Fault injection (faultapp.go): ReplicaConfig.ExtraApps registers additional applications with
 // the real mux; *FaultApp is a small counting application (method veriffault.Add, TxFaultAdd)
 // that can be armed per replica (ArmTx(k) / ArmBegin()) to fail ONCE with
